@@ -88,7 +88,7 @@ func (m *Model) validateUpdate(fanSpeed *traits.FanSpeed) error {
 func (m *Model) DeriveValues(old, new proto.Message) {
 	oldVal := old.(*traits.FanSpeed)
 	newVal := new.(*traits.FanSpeed)
-	if oldVal.Preset != newVal.Preset {
+	if newVal.Preset != "" && oldVal.Preset != newVal.Preset {
 		// preset updated, keep the index and percentage in sync
 		for i, preset := range m.presets {
 			if preset.Name == newVal.Preset {
